@@ -141,6 +141,23 @@ def build_script(seed, size=1.0, micro=False):
         ks = V.lst([V.RR(rng.getrandbits(255)) for _ in range(4)])
         par.op("g1.msm", V.lst(A1), ks); par.op("g2.msm_pip", V.lst(A2), ks, V.n(rng.randrange(1, 8)))
         par.op("g1.in_subgroup", A1[i]); par.op("g2.in_subgroup", A2[j])
+    # the generators in NON-normalised representatives (a lazily built fixed-base table must not capture the first
+    # caller's representative: the call orders differ between the processes whose raw outputs are compared), and one
+    # scalar recoded for several window sizes (a recoding memo keyed too loosely)
+    GL1 = [V.proj(1, *G.rescale(1, g1, G.rand_fe(1, rng))) for _ in range(2)]
+    GL2 = [V.proj(2, *G.rescale(2, g2, G.rand_fe(2, rng))) for _ in range(2)]
+    kw = V.RR(rng.getrandbits(255))
+    for i in range(2):
+        par.op("g1.mul", GL1[i], V.RR(rng.getrandbits(254))); par.op("g2.mul", GL2[i], V.RR(rng.getrandbits(254)))
+        par.op("g1.mul", GL1[i], kw); par.op("g1.mul", G1J, kw)
+    for w_ in (3, 4, 5, 7, 4, 3):
+        par.op("g1.wnaf_form", kw, V.n(w_)); par.op("g2.wnaf_form", kw, V.n(w_))
+    # caller-defined point types whose conversion re-enters the library / panics, then the plain calls again
+    for i in range(2):
+        par.op("pairing_product_re", A1[i], A2[i], A1[i + 1], A2[i + 1], V.n(1))
+        par.op("pairing_product_re", A1[i], A2[i], A1[i + 1], A2[i + 1], V.n(2))
+        par.op("pairing_product", A1[i], A2[i], A1[i + 1], A2[i + 1])
+        par.op("pairing_re", A1[i], A2[i + 1], V.n(1)); par.op("pairing_re", A1[i], A2[i + 1], V.n(2)); par.op("pairing", A1[i], A2[i + 1])
     for _ in range(n(6)):
         i = rng.randrange(4)
         par.op("g1.enc_c", A1[i]); par.op("g2.enc_u", A2[i])
@@ -496,9 +513,9 @@ def judge_par(ctx, rec, res):
             res.evals += 1
             if rec.status != "ok" or rec.outs != prev.outs:
                 return "the same Miller-loop value whether or not list entries share one prepared object: " + V.fmt(prev.outs[0])[:300]
-    if rec.op in ("pairing", "pairing_p", "pair_with_12", "pair_with_21", "pairing_multi", "miller", "final_exp", "prepare1", "prepare2"):
+    if rec.op in ("pairing", "pairing_p", "pair_with_12", "pair_with_21", "pairing_multi", "miller", "final_exp", "prepare1", "prepare2", "pairing_re", "pairing_product", "pairing_product_re"):
         from props import c11, c03, c12
-        if rec.op in ("pairing", "pairing_p", "pair_with_12", "pair_with_21"):
+        if rec.op in ("pairing", "pairing_p", "pair_with_12", "pair_with_21", "pairing_re"):
             return c03.judge(ctx, rec, H.ShardResult()) or None
         if rec.op == "final_exp":
             return c12.judge(ctx, rec, H.ShardResult())
